@@ -61,6 +61,12 @@ Definition wf_manifest (m : manifest) : bool :=
   forallb wf_file (mf_ins m) && forallb wf_file (mf_discovered m) &&
   forallb wf_file (mf_outs m) && no255 (mf_cmdline m).
 
+(* the two manifests do not witness a SipHash collision.  (The same statement for ALL pairs of
+   manifests is false by counting - 64-bit hashes - so the theorems assume it only for the
+   pair they compare.) *)
+Definition no_collision (m1 m2 : manifest) : Prop :=
+  hash_build m1 = hash_build m2 -> manifest_stream m1 = manifest_stream m2.
+
 (* ------------------------------------------------------------------------------------ *)
 (* discovered dependencies *)
 
